@@ -470,6 +470,8 @@ enum Delivery {
     /// every uniform chunk size 1..=L (a threshold on "how much is already buffered" flips somewhere in
     /// between), plus everything TwoDeviations does
     SweepAndTwo,
+    /// MANY isolated deviations over one reader's lifetime (`sustained_plans`), nothing else
+    Sustained,
 }
 
 fn plan_to_json(p: &[Step]) -> Value {
@@ -512,12 +514,36 @@ fn with_interrupts(base: &[Step], at: &[usize]) -> Vec<Step> {
     out
 }
 
+/// Deliveries with MANY isolated deviations over the lifetime of one reader: every data-carrying read hands
+/// over `c` bytes (c of `chunks`) and an Interrupted precedes every k-th read call, the end-of-input read
+/// included (k = 1, 2, 3; for the smallest chunk also two Interrupted in a row before every call).  An input
+/// of L bytes is read in L/c + 1 calls and sees about L/(c k) interrupts, each of them alone and retryable.
+fn sustained_plans(len: usize, chunks: &[usize]) -> Vec<Vec<Step>> {
+    let mut out = vec![];
+    for (ci, &c) in chunks.iter().enumerate() {
+        let calls = (len + c - 1) / c + 1;
+        let periods: &[(usize, usize)] = if ci == 0 { &[(1, 1), (2, 1), (3, 1), (1, 2)] } else { &[(1, 1), (2, 1), (3, 1)] };
+        for &(k, burst) in periods {
+            let mut p = Vec::with_capacity(calls * 2);
+            for i in 0..calls {
+                if i % k == k - 1 {
+                    p.extend(std::iter::repeat(Step::Interrupted).take(burst));
+                }
+                p.push(Step::Give(c));
+            }
+            out.push(p);
+        }
+    }
+    out
+}
+
 /// Deliveries of an input of several buffer sizes `b`.  The default answer (plan []) already is "as much as
 /// is asked for, however much that is"; on top of it: uniform chunks of b-1, b, b+1, 2b and 3b+1 bytes
 /// (the larger ones differ from the default only for a reader that asks for more than b at a time — then
 /// they cap what it gets, where the default does not), a half-buffer first read that shifts every later
-/// buffer boundary, and the deviation plans of the buffer-boundary family with shifts of 1 and 7 bytes (with
-/// the -1/+0/+1 of the head lengths, a head ends 0..2 and 6..8 bytes off a shifted boundary).
+/// buffer boundary, the deviation plans of the buffer-boundary family with shifts of 1 and 7 bytes (with
+/// the -1/+0/+1 of the head lengths, a head ends 0..2 and 6..8 bytes off a shifted boundary), and chunks of
+/// 1021 bytes with an Interrupted before every read call.
 fn huge_plans(b: usize, len: usize) -> Vec<Vec<Step>> {
     let mut out: Vec<Vec<Step>> = vec![vec![]];
     for k in [b - 1, b, b + 1, 2 * b, 3 * b + 1] {
@@ -528,6 +554,8 @@ fn huge_plans(b: usize, len: usize) -> Vec<Vec<Step>> {
     shifted.extend(vec![Step::Give(b); len / b + 2]);
     out.push(shifted);
     out.extend(deviation_plans(b, &[1, 7]).into_iter().filter(|p| !p.is_empty()));
+    // hundreds of read calls, an Interrupted before every one of them (1021 is prime to the buffer size)
+    out.extend(sustained_plans(len, &[1021]).into_iter().take(1));
     out
 }
 
@@ -536,6 +564,7 @@ fn plans_for(case: &Case, listed: &[Vec<Step>], b: usize) -> Vec<Vec<Step>> {
     match case.mode {
         Delivery::Listed => listed.to_vec(),
         Delivery::Huge => huge_plans(b, len),
+        Delivery::Sustained => sustained_plans(len, &[1, 2, 3, 7, 25]),
         Delivery::AllChunkings { interrupts } => {
             let mut out = vec![];
             let nmask = if len == 0 { 1 } else { 1u64 << (len - 1) };
@@ -592,6 +621,8 @@ fn plans_for(case: &Case, listed: &[Vec<Step>], b: usize) -> Vec<Vec<Step>> {
             out.push(vec![Step::Give(usize::MAX), Step::Interrupted, Step::Interrupted]);
             // byte-at-a-time delivery is not bounded-deviation but is named by the property
             out.push(vec![Step::Give(1); len]);
+            // nor are many isolated deviations: short reads throughout, an Interrupted before every (k-th) call
+            out.extend(sustained_plans(len, &[1, 2, 3]));
             out
         }
     }
@@ -1027,6 +1058,46 @@ fn build_huge_cases(b: usize, quick: bool) -> Vec<Case> {
     cases
 }
 
+/// One reader living through MANY read calls and many isolated deviations: texts of 40, 100, 400 and 1100
+/// bytes (lines of integer tokens, LF and CRLF terminated, a blank line; and tokens separated by whitespace
+/// runs of a hundred and more bytes) under the script families of the other cases (typed vectors, String
+/// reads, read_line / read_lines, is_eof before every read, chars, token-then-line), delivered 1, 2, 3, 7
+/// and 25 bytes per read with an Interrupted before every, every second and every third read call
+/// (`sustained_plans`): up to 1100 read calls and 2200 interrupts in one execution.
+fn build_lifetime_cases() -> Vec<Case> {
+    let lines: &[u8] = b"-9223372036854775808 42\r\n7 255 -1\n18446744073709551615\n\n";
+    let mut cases = vec![];
+    let mut add = |input: &[u8], script: Vec<Op>| {
+        if reference(input, &script).is_some() {
+            cases.push(Case { input: input.to_vec(), script, mode: Delivery::Sustained });
+        }
+    };
+    for len in [40usize, 100, 400, 1100] {
+        let input = patterned(lines, len, b'3');
+        let n = count_tokens(&input);
+        add(&input, vec![Op::Vec(Ty::I128, n), Op::Eof]);
+        add(&input, vec![Op::Vec(Ty::Str, n), Op::Eof, Op::Line]);
+        add(&input, vec![Op::Lines, Op::Eof]);
+        add(&input, vec![Op::Line, Op::Line, Op::Line, Op::Eof, Op::Lines]);
+        add(&input, vec![Op::Vec(Ty::Str, n / 2), Op::Line, Op::Lines]);
+        add(&input, (0..n).flat_map(|_| [Op::Eof, Op::Tok(Ty::I128)]).chain([Op::Eof, Op::Line]).collect());
+        add(&input, (0..n.min(24)).map(|_| Op::Tok(Ty::Char)).chain([Op::Line, Op::Lines]).collect());
+        // the same amount of input, most of it whitespace: three tokens, runs of blanks / blank lines between
+        // and after them
+        let run = len / 3;
+        let mut ws: Vec<u8> = b"7".to_vec();
+        ws.extend(b" \n".iter().cycle().take(run));
+        ws.extend_from_slice(b"-8");
+        ws.extend(b"\r\n".iter().cycle().take(run / 2 * 2));
+        ws.push(b'x');
+        ws.extend(b"  \t\n".iter().cycle().take(run));
+        add(&ws, vec![Op::Tok(Ty::U8), Op::Tok(Ty::I8), Op::Tok(Ty::Char), Op::Eof, Op::Line]);
+        add(&ws, vec![Op::Eof, Op::Tok(Ty::Str), Op::Eof, Op::Tok(Ty::I64), Op::Eof, Op::Tok(Ty::Str), Op::Eof]);
+        add(&ws, vec![Op::Tok(Ty::U8), Op::Line, Op::Tok(Ty::I8), Op::Lines]);
+    }
+    cases
+}
+
 // ---------------------------------------------------------------------------------------------
 
 #[derive(Clone)]
@@ -1053,6 +1124,8 @@ struct Tot {
     /// the largest single request the reader made of the source, and the most read calls of one execution
     max_ask: usize,
     max_calls: usize,
+    /// the most Interrupted answers one reader received in one execution
+    max_interrupts: usize,
     /// time spent judging (evidence only: the share of the several-buffers family in the cost of the run)
     busy_s: f64,
     busy_huge_s: f64,
@@ -1081,6 +1154,7 @@ fn judge(case: &Case, idx: usize, plans: &[Vec<Step>]) -> Tot {
         let has_int = plan.contains(&Step::Interrupted);
         if has_int {
             t.interrupted_execs += 1;
+            t.max_interrupts = t.max_interrupts.max(plan.iter().take(ex.calls).filter(|s| **s == Step::Interrupted).count());
         }
         if plan.iter().any(|s| matches!(s, Step::Give(k) if *k < case.input.len())) {
             t.straddle += 1;
@@ -1156,6 +1230,20 @@ fn describe(input: &[u8]) -> String {
     }
 }
 
+/// A delivery plan for signatures and summaries: short plans in full; long periodic ones (a uniform chunk
+/// size, an Interrupted before every k-th call) as `<period> x <repetitions> + <rest>`.
+fn describe_plan(plan: &[Step]) -> String {
+    let js = |p: &[Step]| serde_json::to_string(&plan_to_json(p)).unwrap();
+    if plan.len() > 16 {
+        if let Some(p) = (1..=8).find(|&p| (p..plan.len()).all(|i| plan[i] == plan[i - p])) {
+            let reps = plan.len() / p;
+            let rest = &plan[reps * p..];
+            return format!("{} x {}{}", js(&plan[..p]), reps, if rest.is_empty() { String::new() } else { format!(" + {}", js(rest)) });
+        }
+    }
+    js(plan)
+}
+
 /// Replay form of an input: a list of [bytes, n] = the byte string repeated n times (periods up to 64 are
 /// detected; [byte, n] is a run of one byte), so that inputs of several buffer sizes stay small in replay files.
 fn compress_input(input: &[u8]) -> Value {
@@ -1212,7 +1300,108 @@ fn expand_input(v: &Value) -> Vec<u8> {
     out
 }
 
+// ---------------------------------------------------------------------------------------------
+// executions that could end the PROCESS (a call depth or a stack buffer that grows with the number of refills
+// inside one whitespace run, token or line): each runs in a child process of its own, in both build profiles
+
+/// One crash-risky case: (kind, n, script) name the input and the script; the delivery is one byte per read.
+#[derive(Clone, Debug)]
+struct Risky {
+    /// "ws": tokens separated, preceded and followed by whitespace runs of n bytes; "token": one word of n
+    /// bytes; "line": one line of n bytes (words and blanks), CR LF, a second short line
+    kind: &'static str,
+    n: usize,
+    script: Vec<Op>,
+}
+
+const RISKY_STACK: usize = 2 << 20;
+
+impl Risky {
+    fn input(&self) -> Vec<u8> {
+        match self.kind {
+            "ws" => {
+                let run = || b" \n".iter().cycle().take(self.n).copied();
+                run().chain(*b"7").chain(run()).chain(*b"-8").chain(run()).collect()
+            }
+            "token" => huge_word(self.n).into_iter().chain(*b"\n").collect(),
+            _ => b"ab ".iter().cycle().take(self.n).copied().chain(*b"\r\nz").collect(),
+        }
+    }
+    fn to_json(&self) -> Value {
+        json!({"kind": self.kind, "n": self.n, "script": self.script.iter().map(op_to_json).collect::<Vec<_>>()})
+    }
+    fn from_json(v: &Value) -> Risky {
+        let kind = ["ws", "token", "line"].into_iter().find(|k| v["kind"] == *k).expect("kind");
+        Risky { kind, n: v["n"].as_u64().unwrap() as usize, script: v["script"].as_array().unwrap().iter().map(op_from_json).collect() }
+    }
+    fn name(&self) -> String {
+        format!("{}:n={}:script={}:plan=1 byte per read, interrupted before every 10th call", self.kind, self.n, serde_json::to_string(&self.to_json()["script"]).unwrap())
+    }
+    /// What the child process does: the case on a thread with the stack of an ordinary spawned thread (2 MiB),
+    /// one byte per read and an Interrupted before every tenth call; Err(message) if the values differ from
+    /// the default delivery / the reference or the reader panics.  (A stack overflow ends the process here.)
+    fn run_here(&self) -> Result<(), String> {
+        let me = self.clone();
+        let body = move || {
+            let input = me.input();
+            let expect = reference(&input, &me.script).expect("harness: the reference rejects a crash-risky script");
+            let base = run_real(&input, &[], &me.script);
+            let plan: Vec<Step> = (0..=input.len()).flat_map(|i| (i % 10 == 9).then_some(Step::Interrupted).into_iter().chain([Step::Give(1)])).collect();
+            let ex = run_real(&input, &plan, &me.script);
+            match ex.out {
+                Err(p) => Err(format!("the reader panicked: {p}")),
+                Ok(got) => match judge_values(&got, &base.out, &expect, has_lone_cr(&input)) {
+                    Some((family, msg)) => Err(format!("{family}: {msg}")),
+                    None => Ok(()),
+                },
+            }
+        };
+        std::thread::Builder::new().stack_size(RISKY_STACK).spawn(body).map_err(|e| e.to_string())?.join().expect("harness: the case thread panicked")
+    }
+    /// The case in a child process built with `profile` ("release" | "dbg").  Err(message) = violation (the
+    /// child reported one, or died); Err inside Err = machinery.
+    fn run_in_child(&self, profile: &str) -> Result<Result<(), String>, String> {
+        use std::os::unix::process::ExitStatusExt;
+        let exe = std::env::current_exe().map_err(|e| e.to_string())?;
+        let exe = std::path::PathBuf::from(exe.to_string_lossy().replace("/dbg/", "/release/").replace("/release/", &format!("/{profile}/")));
+        let o = std::process::Command::new(&exe).args(["C08", "quick", "--risky-case", &self.to_json().to_string()]).env("VCORE_CHILD", "1").output().map_err(|e| format!("cannot run {}: {e}", exe.display()))?;
+        let out = String::from_utf8_lossy(&o.stdout);
+        let last = out.lines().last().unwrap_or("");
+        if let Some(sig) = o.status.signal() {
+            let err = String::from_utf8_lossy(&o.stderr);
+            let why = if err.contains("has overflowed its stack") { "the runtime reports a stack overflow" } else { "no message from the runtime" };
+            return Ok(Err(format!("the process was killed by signal {sig} ({why}) while the reader was reading this input one byte per read; the default delivery of the same bytes had returned normally before, in the same process, on the same {} KiB stack", RISKY_STACK >> 10)));
+        }
+        match (o.status.code(), last) {
+            (Some(0), "RISKY-OK") => Ok(Ok(())),
+            (Some(0), l) if l.starts_with("RISKY-FAIL ") => Ok(Err(l["RISKY-FAIL ".len()..].to_string())),
+            (c, l) => Err(format!("crash-risky child ended with {c:?} and printed {l:?}")),
+        }
+    }
+}
+
+/// Whitespace runs, single tokens and single lines of 1x and 2x the buffer size and of 200 000 bytes.
+fn build_risky_cases(b: usize) -> Vec<Risky> {
+    let mut v = vec![];
+    for n in [b, 2 * b, 200_000] {
+        v.push(Risky { kind: "ws", n, script: vec![Op::Tok(Ty::U8), Op::Tok(Ty::I8), Op::Eof] });
+        v.push(Risky { kind: "ws", n, script: vec![Op::Eof, Op::Tok(Ty::Char), Op::Eof, Op::Tok(Ty::Str), Op::Eof, Op::Line] });
+        v.push(Risky { kind: "token", n, script: vec![Op::Tok(Ty::Str), Op::Eof] });
+        v.push(Risky { kind: "token", n, script: vec![Op::Line, Op::Line, Op::Eof] });
+        v.push(Risky { kind: "line", n, script: vec![Op::Line, Op::Line, Op::Eof] });
+        v.push(Risky { kind: "line", n, script: vec![Op::Lines] });
+        v.push(Risky { kind: "line", n, script: vec![Op::Vec(Ty::Str, (n + 2) / 3), Op::Line, Op::Tok(Ty::Char), Op::Eof] });
+    }
+    v
+}
+
 fn confirm(v: &Value) -> Result<(), String> {
+    if let Some(r) = v.get("risky") {
+        return match Risky::from_json(r).run_in_child(v["profile"].as_str().unwrap_or("release")) {
+            Ok(verdict) => verdict,
+            Err(machinery) => Err(format!("harness: {machinery}")),
+        };
+    }
     let input = expand_input(&v["input_rle"]);
     let script: Vec<Op> = v["script"].as_array().unwrap().iter().map(op_from_json).collect();
     let plan = plan_from_json(&v["plan"]);
@@ -1237,6 +1426,15 @@ fn main() {
     if args.replay.is_some() {
         Run::replay_main(&args, &confirm);
     }
+    if args.extra.first().map(|s| s.as_str()) == Some("--risky-case") {
+        // child mode: one crash-risky case, one line on stdout
+        let case = Risky::from_json(&serde_json::from_str(&args.extra[1]).expect("case json"));
+        match case.run_here() {
+            Ok(()) => println!("RISKY-OK"),
+            Err(m) => println!("RISKY-FAIL {}", m.replace('\n', " ")),
+        }
+        std::process::exit(0);
+    }
     let mut run = Run::new(&args, "reader", "fault_enumeration");
     let quick = args.tier == Tier::Quick;
 
@@ -1255,6 +1453,8 @@ fn main() {
     let long = build_long_token_cases();
     let (boundary, boundary_plans) = build_boundary_cases(b, quick);
     let huge = build_huge_cases(b, quick);
+    let lifetime = build_lifetime_cases();
+    let n_lifetime = lifetime.len();
     let n_short = short.len();
     let n_long = long.len();
     let n_boundary = boundary.len();
@@ -1264,7 +1464,7 @@ fn main() {
     let huge_plan_count = huge_plans(b, huge_longest).len();
     // tokens / lines of >= 2 buffers followed by more than one further buffer of input
     let huge_two_buffers_then_more_than_one = huge.iter().filter(|c| c.input.len() > 3 * b && c.input[2 * b..].iter().any(|&x| x == b'\n')).count();
-    let all: Vec<Case> = short.into_iter().chain(closure).chain(long).chain(boundary).chain(huge).collect();
+    let all: Vec<Case> = short.into_iter().chain(closure).chain(long).chain(boundary).chain(huge).chain(lifetime).collect();
 
     let tot = all
         .par_iter()
@@ -1286,6 +1486,7 @@ fn main() {
             a.straddle += b.straddle;
             a.max_ask = a.max_ask.max(b.max_ask);
             a.max_calls = a.max_calls.max(b.max_calls);
+            a.max_interrupts = a.max_interrupts.max(b.max_interrupts);
             a.busy_s += b.busy_s;
             a.busy_huge_s += b.busy_huge_s;
             a.outcomes.extend(b.outcomes);
@@ -1308,8 +1509,8 @@ fn main() {
         }
         reported.push(f.family);
         let script_json: Vec<Value> = f.script.iter().map(op_to_json).collect();
-        let sig = format!("{}:input={}:script={}:plan={}", f.family, describe(&f.input), serde_json::to_string(&script_json).unwrap(), serde_json::to_string(&plan_to_json(&f.plan)).unwrap());
-        let summary = format!("input {} script {} delivery {}: {} ({} (input, script) cases fail in this family)", describe(&f.input), serde_json::to_string(&script_json).unwrap(), serde_json::to_string(&plan_to_json(&f.plan)).unwrap(), f.msg, fam_counts[f.family]);
+        let sig = format!("{}:input={}:script={}:plan={}", f.family, describe(&f.input), serde_json::to_string(&script_json).unwrap(), describe_plan(&f.plan));
+        let summary = format!("input {} script {} delivery {}: {} ({} (input, script) cases fail in this family)", describe(&f.input), serde_json::to_string(&script_json).unwrap(), describe_plan(&f.plan), f.msg, fam_counts[f.family]);
         run.violation(Violation::new(sig, summary, json!({"input_rle": compress_input(&f.input), "script": script_json, "plan": plan_to_json(&f.plan)})));
     }
 
@@ -1325,6 +1526,8 @@ fn main() {
     run.cov("cases_several_buffers_long_longest_input", huge_longest as u64);
     run.cov("cases_several_buffers_long_deliveries_each", huge_plan_count as u64);
     run.cov("cases_several_buffers_long_share_of_judging_time", (tot.busy_huge_s / tot.busy_s.max(1e-9) * 1000.0).round() / 1000.0);
+    run.cov("cases_long_lived_reader_sustained_deviations", n_lifetime as u64);
+    run.cov("most_interrupted_answers_in_one_execution", tot.max_interrupts as u64);
     run.cov("largest_single_request_made_of_the_source", tot.max_ask as u64);
     run.cov("most_read_calls_in_one_execution", tot.max_calls as u64);
     run.cov("executions_with_interrupted", tot.interrupted_execs);
@@ -1332,15 +1535,16 @@ fn main() {
     run.cov("distinct_expected_outcomes", tot.outcomes.len() as u64);
     run.cov("failing_cases_per_family", json!(fam_counts));
     run.cov("exhaustive", true);
-    run.cov("rule", "evaluations = executions of the real Reader (one per (input, script, delivery plan)); distinct_nontrivial = distinct (input, script) pairs accepted by the reference parser as valid scripts. Short inputs (<= 10 bytes quick / 13 thorough, built from tokens x separators incl. CRLF, lone CR, blank lines): ALL 2^(L-1) chunkings, plus every placement of <= 2 Interrupted for L <= 5 (quick) / 6 and <= 1 for L <= 7 / 9; EVERY byte string over {'7', SP, CR, LF} of length <= 7 (quick) / 8 (so every run of CRs before LF, CR CR at end of input, CR LF CR LF, LF CR, lone CR between tokens, at every position) under line scripts and mixed token/line scripts: ALL chunkings, plus <= 2 Interrupted for L <= 4 and <= 1 for L = 5; extreme values of all 12 integer types, tuples of arity 2..8 and multi-line text: every placement of <= 2 deviations (short read / Interrupted) plus byte-at-a-time; integers of every width (extreme values included) followed by 60-90 further bytes under mixed token/line scripts (tails with CR runs before the terminators included): additionally every uniform chunk size 1..=L; inputs as long as the observed internal buffer with the interesting bytes (extreme integers, sign/digit cuts, CR LF pairs, CR runs before LF, LF CR, CR CR at end of input) at every offset around the boundary under 21 listed plans; inputs of SEVERAL buffer sizes: a head that is one word or one line of space-separated integers of 1x, 2x, 3x, 5x the observed buffer size b (-1, +0, +1 bytes each; thorough also 4x, 8x), followed by nothing, one LF, or LF and b+1 resp. 2b further bytes of integer tokens in LF/CRLF lines, without and with a leading count token, read by String reads, read_line x3, read_lines, integer vectors and token-then-line scripts, each under: whole-input delivery (the source hands over as much as is asked for, however much - it never caps a request at b), uniform chunks of b-1, b, b+1, 2b, 3b+1 bytes, a half-buffer first read followed by b-sized ones, and the listed deviation plans with boundary shifts of 1 and 7 bytes. Oracle per case: every delivery must return what the default delivery (each read fills the buffer offered) of the same bytes returns (delivery_dependence, all inputs), and that common result must equal the reference parser's where the property defines it (reference_mismatch, inputs without a lone CR)");
+    run.cov("rule", "evaluations = executions of the real Reader (one per (input, script, delivery plan)); distinct_nontrivial = distinct (input, script) pairs accepted by the reference parser as valid scripts. Short inputs (<= 10 bytes quick / 13 thorough, built from tokens x separators incl. CRLF, lone CR, blank lines): ALL 2^(L-1) chunkings, plus every placement of <= 2 Interrupted for L <= 5 (quick) / 6 and <= 1 for L <= 7 / 9; EVERY byte string over {'7', SP, CR, LF} of length <= 7 (quick) / 8 (so every run of CRs before LF, CR CR at end of input, CR LF CR LF, LF CR, lone CR between tokens, at every position) under line scripts and mixed token/line scripts: ALL chunkings, plus <= 2 Interrupted for L <= 4 and <= 1 for L = 5; extreme values of all 12 integer types, tuples of arity 2..8 and multi-line text: every placement of <= 2 deviations (short read / Interrupted) plus byte-at-a-time; integers of every width (extreme values included) followed by 60-90 further bytes under mixed token/line scripts (tails with CR runs before the terminators included): additionally every uniform chunk size 1..=L; inputs as long as the observed internal buffer with the interesting bytes (extreme integers, sign/digit cuts, CR LF pairs, CR runs before LF, LF CR, CR CR at end of input) at every offset around the boundary under 21 listed plans; inputs of SEVERAL buffer sizes: a head that is one word or one line of space-separated integers of 1x, 2x, 3x, 5x the observed buffer size b (-1, +0, +1 bytes each; thorough also 4x, 8x), followed by nothing, one LF, or LF and b+1 resp. 2b further bytes of integer tokens in LF/CRLF lines, without and with a leading count token, read by String reads, read_line x3, read_lines, integer vectors and token-then-line scripts, each under: whole-input delivery (the source hands over as much as is asked for, however much - it never caps a request at b), uniform chunks of b-1, b, b+1, 2b, 3b+1 bytes, a half-buffer first read followed by b-sized ones, the listed deviation plans with boundary shifts of 1 and 7 bytes, and 1021-byte reads with an Interrupted before every read call. MANY isolated deviations over one reader's lifetime: the extreme-value / tuple / multi-line / integer-then-long-remainder cases additionally under 1, 2 and 3 bytes per read with an Interrupted before every, every 2nd and every 3rd read call (byte-at-a-time also with two in a row before every call), and texts of 40, 100, 400 and 1100 bytes (lines of integer tokens LF/CRLF terminated with a blank line; tokens separated by whitespace runs of a third of the text) under typed vectors, String reads, read_line / read_lines, is_eof before every read, chars and token-then-line scripts, delivered 1, 2, 3, 7 and 25 bytes per read with the same interrupt periods (most_interrupted_answers_in_one_execution, most_read_calls_in_one_execution). Process-isolated cases (each in a child process of its own, on a 2 MiB stack, in the release and in the debug-assertions build; a child that dies by a signal is a violation of its case, replayed in a child again): whitespace runs before, between and after tokens, one word, and one line of words, of 1x and 2x the buffer size and of 200 000 bytes, one byte per read with an Interrupted before every tenth call, against the default delivery in the same process. Oracle per case: every delivery must return what the default delivery (each read fills the buffer offered) of the same bytes returns (delivery_dependence, all inputs), and that common result must equal the reference parser's where the property defines it (reference_mismatch, inputs without a lone CR)");
     for c in all.iter().step_by((all.len() / 6).max(1)).take(6) {
         run.sample(json!({"input": describe(&c.input), "script": c.script.iter().map(op_to_json).collect::<Vec<_>>(), "expected": reference(&c.input, &c.script)}));
     }
     run.assume("reference parser: tokens are maximal runs of non-ASCII-whitespace; a line ends at LF or CRLF (terminator dropped), a CR not followed by LF is part of the line; the reference_mismatch family is not judged on inputs with a lone CR (the property does not define them), delivery_dependence is judged on all inputs");
     run.assume("the harness's Read object hands over min(plan step, bytes asked for, bytes left): it never caps a request at the reader's buffer size, so a reader that asks for more than its buffer holds receives it (largest_single_request_made_of_the_source records the largest request seen)");
+    run.assume("both build profiles of the harness are optimised builds (the debug-assertions profile inherits the release one): a call depth or stack use that grows with the input only in UNOPTIMISED builds (e.g. a self tail call that the optimiser turns into a loop) does not show in the process-isolated cases");
     run.assume("scripts the reference parser rejects (a token that is not there / does not fit the type) are outside the property and are not executed");
     // the replay form of inputs must be lossless (checked on a sample of every family)
-    if let Some(c) = all.iter().step_by(997).chain(all[all.len() - n_huge..].iter().step_by(37)).find(|c| expand_input(&compress_input(&c.input)) != c.input) {
+    if let Some(c) = all.iter().step_by(997).chain(all[all.len() - n_huge - n_lifetime..].iter().step_by(37)).find(|c| expand_input(&compress_input(&c.input)) != c.input) {
         run.machinery_failure(&format!("the replay form of input {} does not expand to the input", describe(&c.input)));
     }
     if closure_cr_run_inputs < 100 {
@@ -1349,10 +1553,34 @@ fn main() {
     if tot.execs < 100_000 || tot.interrupted_execs < 1000 || tot.straddle < 1000 || n_boundary < 50 {
         run.machinery_failure("exploration implausibly small");
     }
+    if n_lifetime < 30 || tot.max_interrupts < 1000 || tot.max_calls < 2000 {
+        run.machinery_failure("the long-lived-reader family is too small (executions with >= 1000 isolated Interrupted answers)");
+    }
     if n_huge < 100 || huge_longest < 7 * b || huge_two_buffers_then_more_than_one < 20 || tot.max_calls < 7 || tot.max_ask < b {
         run.machinery_failure("the several-buffers family is too small (tokens of >= 2 buffers followed by > 1 buffer of input, executions with >= 7 read calls)");
     }
     if std::env::var("VCORE_CHILD").is_err() {
+        // the crash-risky cases, each in a child process of its own, in both build profiles
+        let risky = build_risky_cases(b);
+        let jobs: Vec<(&str, &Risky)> = ["release", "dbg"].into_iter().flat_map(|p| risky.iter().map(move |r| (p, r))).collect();
+        let results: Vec<Result<Result<(), String>, String>> = jobs.par_iter().map(|(p, r)| r.run_in_child(p)).collect();
+        let mut reported = vec![];
+        for ((profile, r), res) in jobs.iter().zip(results) {
+            match res {
+                Err(machinery) => run.machinery_failure(&machinery),
+                Ok(Ok(())) => {}
+                Ok(Err(msg)) => {
+                    // one report per (profile, kind): the smallest n
+                    if !reported.contains(&(*profile, r.kind)) {
+                        reported.push((*profile, r.kind));
+                        run.violation(Violation::new(format!("process_isolated:{profile}:{}", r.name()), format!("[{profile} build, case run in a process of its own] {} of {} bytes, script {}, one byte per read and an Interrupted before every tenth call: {msg}", r.kind, r.n, r.to_json()["script"]), json!({"risky": r.to_json(), "profile": profile})));
+                    }
+                }
+            }
+        }
+        run.cov("cases_process_isolated_crash_risky", risky.len() as u64);
+        run.cov("cases_process_isolated_crash_risky_longest_run", risky.iter().map(|r| r.n).max().unwrap_or(0) as u64);
+        run.add("evaluations", 4 * risky.len() as u64);
         // the same enumeration in a build with debug assertions and overflow checks
         run.run_dbg_child();
     }
